@@ -210,3 +210,15 @@ function fmt(v) {
   }
 }
 export { isPlainish };
+
+export function isCyclic(v, stack = new Set(), depth = 0) {
+  if (v === null || typeof v !== "object" || depth > 300) return false;
+  if (stack.has(v)) return true;
+  stack.add(v);
+  let r = false;
+  if (v instanceof Map) for (const [k, x] of v) r = r || isCyclic(k, stack, depth + 1) || isCyclic(x, stack, depth + 1);
+  else if (v instanceof Set) for (const x of v) r = r || isCyclic(x, stack, depth + 1);
+  else if (!ArrayBuffer.isView(v)) for (const k of Object.keys(v)) r = r || isCyclic(v[k], stack, depth + 1);
+  stack.delete(v);
+  return r;
+}
